@@ -40,6 +40,11 @@ add("C14", "exploration",
     "Trusts the 40-line reference walker; ambiguous tails (empty descriptor starting in padding beyond the data) are excluded and counted.",
     "property-based testing (proptest) against a reference implementation (note walker)", "DESIGN.md §5 C14")
 
+add("C19", "exploration",
+    "Exhaustive enumeration of finite domains against differential references: all ~1175 exported integer constants (extracted from src/abi.rs by build.rs) vs a table derived from glibc <elf.h>, Linux uapi headers and LLVM 14 BinaryFormat with the C/C++ compiler evaluating the macros; size_of/offset_of! of every field of the 16 #[repr(C)] structs vs offsetof on <elf.h>; every to_str helper over u8/u16 exhaustively and over all constant values, neighbours and pseudo-random values for u32/i64. Enumeration is the right level because the domains are finite lists.",
+    "Trusts the installed reference headers (names on which they disagree or which none defines are counted, not judged) and a 9-entry spelling alias table.",
+    "exhaustive enumeration with a differential oracle (reference headers evaluated by the C compiler)", "DESIGN.md §5 C19")
+
 NOT_YET = {}
 allp = [json.loads(l)["id"] for l in open("properties.jsonl")]
 checks = []
